@@ -2934,6 +2934,13 @@ impl KnowledgeGraph {
     ///
     /// Overwrites any existing schema. Saves to disk on success.
     pub fn register_or_update_schema(&mut self, schema: RelationSchema) -> Result<(), String> {
+        // Data-first workflow: tuples already stored in the relation must conform to the
+        // schema being declared, otherwise the relation would hold data its schema forbids.
+        if let Some(existing) = self.engine.input_tuples.get(&schema.name) {
+            ValidationEngine::new()
+                .validate_existing_data(&schema, existing)
+                .map_err(|e| format!("{e}"))?;
+        }
         self.schema_catalog
             .register_or_update(schema)
             .map_err(|e| format!("{e}"))?;
